@@ -774,7 +774,52 @@ def g10(prog, ctx):
     ctx.floor("G10", "stores into all_isoforms_exons", n, 1)
 
 
+def g11(prog, ctx):
+    """extended_annotation.gtf contains every reference transcript because the second stage runs one task per reference sequence and each
+    task writes the reference transcripts of its sequence: the list of sequences the tasks are scheduled over is the whole reference -
+    all keys of reference_record_dict - wherever it is computed or used, never a selection (sequences without reads still have genes)."""
+    n = 0
+    gl = prog.func(DSP, "DatasetProcessor.get_chr_list")
+
+    def selection(e):
+        """a comprehension with a condition / filter() somewhere in the expression"""
+        for x in ast.walk(e):
+            if isinstance(x, (ast.ListComp, ast.SetComp, ast.GeneratorExp)) and any(g.ifs for g in x.generators):
+                return x
+            if isinstance(x, ast.Call) and call_name(x) == "filter":
+                return x
+        return None
+    rets = [r for r in walk_no_nested(gl) if isinstance(r, ast.Return) and r.value is not None]
+    names = {r.value.id for r in rets if isinstance(r.value, ast.Name)}
+    exprs = [r.value for r in rets] + [st.value for st in walk_no_nested(gl) if isinstance(st, ast.Assign)]
+    for e in exprs:
+        n += 1
+        sel = selection(e)
+        if sel is not None:
+            ctx.fail("G11", sel, gl._qualname, src(sel)[:90], "get_chr_list returns a selection of the reference sequences (%s): the sequences "
+                     "left out get no task in the second stage, and their reference transcripts are missing from extended_annotation.gtf"
+                     % src(sel)[:60])
+    if not any("reference_record_dict" in src(e) for e in exprs):
+        ctx.undecided("G11", gl, gl._qualname, "the list is not computed from reference_record_dict")
+    par = prog.func(DSP, "DatasetProcessor.process_assigned_reads")
+    for st in walk_no_nested(par):
+        if isinstance(st, ast.Assign) and any(isinstance(x, ast.Call) and (call_name(x) or "").endswith("get_chr_list") for x in ast.walk(st.value)):
+            n += 1
+            sel = selection(st.value)
+            if sel is not None:
+                ctx.fail("G11", st, par._qualname, src(st)[:90], "the second stage runs over a selection of the reference sequences (%s): "
+                         "reference transcripts of the other sequences never reach extended_annotation.gtf" % src(sel)[:60])
+            else:
+                ctx.ok("G11", "%s:%d" % (DSP, st.lineno), "second-stage tasks are scheduled over get_chr_list() as it is")
+    if not [f_ for f_ in ctx.findings if f_.rule == "G11"]:
+        ctx.ok("G11", "%s:%d" % (DSP, gl.lineno), "get_chr_list returns every key of reference_record_dict")
+    ctx.floor("G11", "definitions / uses of the task list", n, 2)
+
+
 def run(prog, ctx):
+    ctx.rule("G11", "get_chr_list returns all keys of reference_record_dict and process_assigned_reads schedules its tasks over that list "
+                    "unfiltered (no conditional comprehension / filter)")
+    g11(prog, ctx)
     ctx.rule("G10", "the exon list stored in all_isoforms_exons is a local that starts empty and only receives (record.start, record.end) of "
                     "the records of the transcript's own children loop - no call transforms it before it is stored")
     g10(prog, ctx)
